@@ -106,7 +106,11 @@ let sc = { s_append_strict = cbool h "s_append_strict";
            s_sun_path_cap = cnum h "s_sun_path_cap";
            s_file_max = cnum h "s_file_max";
            s_file_fread = cnum h "s_file_fread";
-           s_file_err_max = cnum h "s_file_err_max" }
+           s_file_err_max = cnum h "s_file_err_max";
+           s_cg_path = cnum h "s_cg_path";
+           s_rp_path = cnum h "s_rp_path";
+           s_rp_val_max = cnum h "s_rp_val_max";
+           s_rp_ret_cap = cnum h "s_rp_ret_cap" }
 let ec = { tag_open = cbytes h "tag_open"; tag_close = cbytes h "tag_close"; tag_colon = cbytes h "tag_colon";
            e_close = cbytes h "e_close"; e_nf1 = cbytes h "e_nf1"; e_nf2 = cbytes h "e_nf2"; e_f1 = cbytes h "e_f1";
            e_f2 = cbytes h "e_f2"; e_f3 = cbytes h "e_f3"; ds_buf_adj = cnum h "ds_buf_adj";
@@ -148,6 +152,8 @@ let handle = function
   | ["datetime"; sz; _fmt; formatted] -> show (x_datetime sc (n_of_dec sz) (unhex formatted))
   | ["snprintf"; sz; text] -> show (x_snprintf (n_of_dec sz) (unhex text))
   | ["spawns"; ppid; tbl; arg] -> show (x_spawns sc (n_of_dec ppid) (table tbl) (unhex arg))
+  | ["cgroup"; sz; arg; content] -> show (x_cgroup sc (n_of_dec sz) (unhex arg) (of_str "4242") (unhex_opt content) (of_str "No such file or directory"))
+  | ["rpname"; sz; tbl; pid] -> show (x_rpname sc (n_of_dec sz) (table tbl) (n_of_dec pid))
   | ["errcycle"; depth; nr; msg] -> show (x_errcycle sc (n_of_dec depth) (n_of_dec nr) (unhex msg))
   | ["sockaddr"; arg] -> show (x_sockaddr sc (unhex arg))
   | ["devlog"; msg; ident; pri; pid; file; argv; env] -> show (x_devlog sc ec dc cc (world env file argv) (unhex msg) (unhex ident) (n_of_dec pri) (n_of_dec pid))
